@@ -181,7 +181,7 @@ class Run:
 
     def line(self, outs, err, extra=''):
         ls, ev = self.w.lstate(0, 0)
-        outs = [o.replace('rej:0.0:', 'rej:') for o in outs]
+        outs = [o.replace(':0.0:', ':', 1) for o in outs]
         return '%s ev=%s | %s | %s%s' % (ls, ev, ';'.join(outs) if outs else '-', err, extra)
 
     def emit(self, op, outs, err, extra=''):
@@ -286,7 +286,7 @@ class Run:
                 self.outstanding = False
         ls_now = self.w.lstate(0, 0)[0]
         if before[0] == 'BUSY' and ls_now == 'UNKNOWN':
-            if not any(o == 'rej:0.0:%s' % held or o == 'rej:%s' % held for o in outs):
+            if not any(o == 'rej:0.0:%s' % held for o in outs):
                 self.viol.append(('event-not-returned', 'BUSY -> UNKNOWN without an EventRejectedEvent for event %s' % held))
 
     def doc_feed(self, data):
@@ -364,7 +364,7 @@ def normalise(summ):
         m = []
         for o in outs:
             if o.startswith('w:') and m and m[-1].startswith('w:'):
-                m[-1] = m[-1] + o[2:]
+                m[-1] = m[-1] + o.split(':')[-1]
             else:
                 m.append(o)
         res.append((ls, ev, tuple(m)))
